@@ -1442,7 +1442,7 @@ CollectResults:
 			Options: wamp.SetOption(nil, wamp.OptMode, c.cancelMode),
 		}
 		var answered bool
-		for sent := false; !sent && !answered; {
+		for sent := false; !sent; {
 			select {
 			case c.sess.Send() <- cancelMsg:
 				sent = true
@@ -1452,8 +1452,11 @@ CollectResults:
 				if !ok {
 					return nil, err
 				}
-				// An ERROR ends the call as well as the one awaited below.
-				_, answered = msg.(*wamp.Error)
+				// An ERROR taken here ends the call like the one awaited
+				// below; the CANCEL is sent all the same.
+				if _, isErr := msg.(*wamp.Error); isErr {
+					answered = true
+				}
 			}
 		}
 		if !answered {
